@@ -186,6 +186,71 @@ def _closure_of(chain):
     return values - funcs, funcs
 
 
+def _closure_order(chain):
+    """the value closure variables of chain[-1] in the order of their BINDING: outermost scope first, in a
+    scope its parameters in signature order, then its locals in order of first assignment"""
+    values, _funcs = _closure_of(chain)
+    order = []
+
+    class _Stores(ast.NodeVisitor):
+        def visit_FunctionDef(self, n):
+            pass
+
+        def visit_Lambda(self, n):
+            pass
+
+        def visit_Name(self, n):
+            if not isinstance(n.ctx, ast.Load) and n.id in values and n.id not in order:
+                order.append(n.id)
+
+    for enc in chain[:-1]:
+        if not isinstance(enc, ast.FunctionDef):
+            continue
+        for a in _fn_args(enc):
+            if a in values and a not in order:
+                order.append(a)
+        for st in enc.body:
+            _Stores().visit(st)
+    return order + sorted(values - set(order))
+
+
+def _resolved(t, tree):
+    """a copy of a path target whose Python parameter names are the ones of the source: the target
+    declares its own parameters and its closure variables BY POSITION (types, and binder names where
+    they differ from the Python name); renaming a parameter of an inner function or a local that an inner
+    function closes over does not change the translation's shape"""
+    import copy
+    if t.path is None or getattr(t, "_is_resolved", False):
+        return t
+    chain = _find_path(tree, t.path)
+    fn = chain[-1]
+    pyargs = [a for a in _fn_args(fn) if a != "self"]
+    own = [p for p in t.params if not p[0].startswith(("$", "^"))]
+    if len(pyargs) != len(own):
+        raise Unsupported(f"signature of {'.'.join(t.path)} is {pyargs}, the tie expects {len(own)} parameters")
+    clos = _closure_order(chain)
+    decl = [p for p in t.params if p[0].startswith("^")]
+    if len(clos) != len(decl):
+        raise Unsupported(f"closure variables of {'.'.join(t.path)} are {clos}, the tie expects {len(decl)}")
+    io, ic, out = iter(pyargs), iter(clos), []
+    for p in t.params:
+        if p[0].startswith("$"):
+            out.append(p)
+        elif p[0].startswith("^"):
+            a = next(ic)
+            out.append(("^" + a, a, p[2]))
+        else:
+            a = next(io)
+            out.append((a, a if p[1] == p[0] else p[1], p[2]))
+    binders = [p[1] for p in out if p[2] != "-"]
+    if len(set(binders)) != len(binders):
+        raise Unsupported(f"parameter names of {'.'.join(t.path)} collide: {binders}")
+    t2 = copy.copy(t)
+    t2.params = out
+    t2._is_resolved = True
+    return t2
+
+
 class Target:
     """One function to translate.
 
@@ -234,6 +299,8 @@ class Target:
 
 class Tr:
     def __init__(self, target: Target, source: str, tree: ast.AST, done=None):
+        if target.path is not None and tree is not None:
+            target = _resolved(target, tree)
         self.t = target
         self.source = source
         self.tree = tree
@@ -305,6 +372,21 @@ class Tr:
             return "(" + ", ".join(self.expr(e, env) for e in n.elts) + ")"
         if self.is_list_lit(n):
             return "[" + ", ".join(self.expr(e, env) for e in self.is_list_lit(n)) + "]"
+        if isinstance(n, ast.Subscript) and isinstance(n.value, ast.Attribute) and isinstance(n.value.value, ast.Name) \
+                and n.value.value.id in self.elems and n.value.value.id in env:
+            # `v.a[i]` for a comprehension variable: only as the target declares it (the reading of the index
+            # and of an index out of range is the model's)
+            var = n.value.value.id
+            key = ast.unparse(n)[len(var) + 1:]
+            if key not in self.elems[var].get("index", {}):
+                raise Unsupported(f"subscript {ast.unparse(n)}")
+            return f"({var}.{self.elems[var]['index'][key]})"
+        if isinstance(n, ast.ListComp):
+            g, coll = self._comp(n)
+            var, lst, elt = self._filtered(g, coll, env)
+            if isinstance(g.elt, ast.Name) and g.elt.id == var:
+                return lst
+            return f"({lst}.map (fun {var} => {elt}))"
         if isinstance(n, ast.Call):
             return self.call(n, env)
         if isinstance(n, (ast.Compare, ast.BoolOp)):
@@ -320,6 +402,14 @@ class Tr:
         g = n.args[0]
         if len(g.generators) != 1 or g.generators[0].is_async or not isinstance(g.generators[0].target, ast.Name):
             raise Unsupported("generator expression with several clauses / a pattern target")
+        coll = self.t.colls.get(ast.unparse(g.generators[0].iter))
+        if coll is None:
+            raise Unsupported(f"iteration over {ast.unparse(g.generators[0].iter)}")
+        return g, coll
+
+    def _comp(self, g):
+        if len(g.generators) != 1 or g.generators[0].is_async or not isinstance(g.generators[0].target, ast.Name):
+            raise Unsupported("comprehension with several clauses / a pattern target")
         coll = self.t.colls.get(ast.unparse(g.generators[0].iter))
         if coll is None:
             raise Unsupported(f"iteration over {ast.unparse(g.generators[0].iter)}")
@@ -535,14 +625,14 @@ class Tr:
         if name in env or (name in self.pnames):
             return None  # shadowed by a local / parameter
         if name == t.path[-1] and f"def:{name}" not in env:
-            return t
+            return t  # already resolved
         if f"def:{name}" in env:
             ct = PATHS.get((t.rel, t.path + (name,)))
             if ct is None:
                 raise Unsupported(f"inner function {name} is not a translation target")
             if self.done.get(ct.lean_name) != "ok":
                 raise Unsupported(f"inner function {name} was not translated")
-            return ct
+            return _resolved(ct, self.tree)
         # a module-level function of the same file that is a translation target — unless the name is bound
         # in an enclosing function scope (then it is something else)
         ct = PATHS.get((t.rel, (name,)))
@@ -552,7 +642,7 @@ class Tr:
                     return None
             if self.done.get(ct.lean_name) != "ok":
                 raise Unsupported(f"function {name} was not translated")
-            return ct
+            return _resolved(ct, self.tree)
         return None
 
     def is_fcall(self, n, env):
@@ -569,7 +659,7 @@ class Tr:
                 raise Unsupported(f"function parameter {node.id} passed at type {ty}")
             return self.pnames[node.id]
         ct = self.callee(node.id, env)
-        if ct is None or ct is self.t:
+        if ct is None or ct.lean_name == self.t.lean_name:
             raise Unsupported(f"function argument {node.id}")
         if ct.kind != "pure" or ct.fuel:
             raise Unsupported(f"function argument {node.id} is not a pure translated function")
@@ -641,11 +731,14 @@ class Tr:
         """"Nat" / "Int" for an integer-valued atom, "lit" for an int literal, "K" for everything else"""
         if self.t.inputs and not isinstance(n, ast.Constant) and ast.unparse(n) in self.t.inputs:
             ty = self.btypes.get(self.t.inputs[ast.unparse(n)], "K")
-            return ty if ty in ("Nat", "Int") else "K"
+            return ty if ty in ("Nat", "Int", "Nat × Nat") else "K"
         if isinstance(n, ast.Constant) and isinstance(n.value, int) and not isinstance(n.value, bool):
             return "lit"
         if self.is_nat(n, env):
             return "Nat"
+        if isinstance(n, ast.Attribute) and isinstance(n.value, ast.Name) and n.value.id in self.elems \
+                and n.value.id in env:
+            return self.elems[n.value.id].get("types", {}).get(n.attr, "K")
         if isinstance(n, ast.Name):
             if n.id in env:
                 return self.ltypes.get(n.id, "K")
@@ -660,6 +753,8 @@ class Tr:
         """comparison of two integer-valued atoms (None if this is a comparison in the carrier)"""
         tl, tr_ = self.etype(left, env), self.etype(right, env)
         tys = {tl, tr_} - {"lit"}
+        if "Nat × Nat" in tys:
+            raise Unsupported("pair comparison in a Prop position")
         if not tys & {"Nat", "Int"}:
             return None
         if len(tys) != 1:
@@ -678,6 +773,24 @@ class Tr:
         if rel is None:
             raise Unsupported(f"comparison {type(op).__name__}")
         return rel
+
+    def pair_cmp(self, left, op, right, env):
+        """Python's lexicographic comparison of two (month, day)-like pairs of naturals, as a Bool
+        (None if the operands are not such pairs)"""
+        if self.etype(left, env) != "Nat × Nat" and self.etype(right, env) != "Nat × Nat":
+            return None
+        if self.etype(left, env) != self.etype(right, env):
+            raise Unsupported("comparison of a pair with something else")
+        l, r = self.expr(left, env), self.expr(right, env)
+        if isinstance(op, ast.GtE):
+            l, r, op = r, l, ast.LtE()
+        elif isinstance(op, ast.Gt):
+            l, r, op = r, l, ast.Lt()
+        if isinstance(op, ast.LtE):
+            return f"(decide ({l}.1 < {r}.1) || ({l}.1 == {r}.1 && decide ({l}.2 ≤ {r}.2)))"
+        if isinstance(op, ast.Lt):
+            return f"(decide ({l}.1 < {r}.1) || ({l}.1 == {r}.1 && decide ({l}.2 < {r}.2)))"
+        raise Unsupported(f"pair comparison {type(op).__name__}")
 
     def attr_local(self, attr):
         return "self_" + attr.lstrip("_")
@@ -719,6 +832,8 @@ class Tr:
                         raise Unsupported("`is` with something other than None")
                     e = self.expr(left, env)
                     parts.append(f"({e}).isNone" if isinstance(op, ast.Is) else f"({e}).isSome")
+                elif self.pair_cmp(left, op, right, env) is not None:
+                    parts.append(self.pair_cmp(left, op, right, env))
                 elif self.int_cmp(left, op, right, env) is not None:
                     parts.append(f"decide ({self.int_cmp(left, op, right, env)})")
                 elif isinstance(op, ast.Eq):
@@ -737,7 +852,7 @@ class Tr:
             return self.call(n, env)
         if isinstance(n, ast.Constant) and isinstance(n.value, bool):
             return "true" if n.value else "false"
-        if isinstance(n, (ast.Name, ast.Attribute)):
+        if isinstance(n, (ast.Name, ast.Attribute, ast.Subscript)):
             return self.expr(n, env)
         raise Unsupported(f"boolean expression {type(n).__name__}")
 
@@ -1040,7 +1155,7 @@ class Tr:
         for k in list(env):
             if k.startswith("def:") and k[4:] in used:
                 ct = PATHS.get((t.rel, t.path + (k[4:],)))
-                used |= {p[0][1:] for p in (ct.params if ct else []) if p[0].startswith("^")}
+                used |= {p[0][1:] for p in (_resolved(ct, self.tree).params if ct else []) if p[0].startswith("^")}
         extra = [k for k in env if not k.startswith("def:") and k in used and k != s.iter.id]
         name = f"{t.lean_name}_loop"
         binders = self.binders() + [f"({env[k]} : {self.ltypes.get(k, 'K')})" for k in extra]
@@ -1127,14 +1242,8 @@ class Tr:
         fn = chain[-1]
         if fn.decorator_list:
             raise Unsupported("decorated function")
-        pyargs = [a for a in _fn_args(fn) if a != "self"]
-        want = [p[0] for p in t.params if not p[0].startswith(("$", "^"))]
-        if pyargs != want:
-            raise Unsupported(f"signature of {'.'.join(t.path)} is {pyargs}, the tie expects {want}")
+        # (signature and closure variables were matched by position in `_resolved`)
         values, funcs = _closure_of(chain)
-        declared = {p[0][1:] for p in t.params if p[0].startswith("^")}
-        if values != declared:
-            raise Unsupported(f"closure variables of {'.'.join(t.path)} are {sorted(values)}, the tie expects {sorted(declared)}")
         if funcs - {fn.name}:
             raise Unsupported(f"{'.'.join(t.path)} refers to the enclosing functions {sorted(funcs - {fn.name})}")
         recursive = fn.name in funcs or (len(chain) == 1 and fn.name in _free_names(fn))
@@ -1347,27 +1456,55 @@ def _sel_sort_table(tr: Tr):
 
 def _sel_prefix(tr: Tr):
     """the straight-line prefix of a path function: its leading run of plain assignments `x = e` to
-    distinct local names; the result is the tuple of the locals named in `locals_types["$prefix"]`
-    (all of which must be assigned there) — what the rest of the function starts from"""
+    distinct local names.  The result is the tuple of the prefix locals that the REST of the function
+    reads, in the order in which the rest first reads them (source order; a body of an inner function is
+    read where it is defined) — independent of the locals' names and of the order of the assignments."""
     fn, recursive = tr.path_fn()
     if recursive:
         raise Unsupported("prefix of a recursive function")
     env, lets, names = {}, [], []
-    for st in fn.body:
-        if _is_docstring(st):
-            continue
+    body = [st for st in fn.body if not _is_docstring(st)]
+    cut = len(body)
+    for i, st in enumerate(body):
         if not (isinstance(st, ast.Assign) and len(st.targets) == 1 and isinstance(st.targets[0], ast.Name)):
+            cut = i
+            break
+        k = st.targets[0].id
+        if k in names or k in tr.pnames:
+            cut = i
             break
         k, v = tr.assign_value(st, env)
-        if k in names or k in tr.pnames:
-            break
         lets.append(f"  let {k} := {v}")
         env[k] = k
         names.append(k)
-    want = list(tr.t.locals_types.get("$prefix", ()))
-    if not want or set(want) - set(names):
-        raise Unsupported(f"the function starts by assigning {names}, the tie expects {want}")
-    return "\n".join(lets) + "\n  (" + ", ".join(want) + ")"
+    order, dead = [], set()
+
+    class _Reads(ast.NodeVisitor):
+        def visit_Name(self, n):
+            if n.id in names and n.id not in dead:
+                if isinstance(n.ctx, ast.Load):
+                    if n.id not in order:
+                        order.append(n.id)
+                else:
+                    dead.add(n.id)  # reassigned: later reads see another value
+
+        def visit_Assign(self, n):
+            self.visit(n.value)  # the value is evaluated before the targets are bound
+            for tg in n.targets:
+                self.visit(tg)
+
+        def visit_AugAssign(self, n):
+            self.visit(n.value)
+            if isinstance(n.target, ast.Name) and n.target.id in names and n.target.id not in dead \
+                    and n.target.id not in order:
+                order.append(n.target.id)
+            self.visit(n.target)
+
+    for st in body[cut:]:
+        _Reads().visit(st)
+    if not order:
+        raise Unsupported("the rest of the function reads none of the leading assignments")
+    return "\n".join(lets) + "\n  (" + ", ".join(order) + ")"
 
 
 class _NpTr(Tr):
@@ -1600,8 +1737,7 @@ TARGETS = [
            doc="batt_cap_fn._get_init_cap.binsearch (Python recursion depth = fuel)", group="Fit"),
     Target("fit_closed_init_soc", BATT, None, "_get_init_cap", path=FIT_PATH, params=FIT_OUTER + FIT_OWN,
            ret="K × K × K", kind="pure", select=_sel_prefix,
-           locals_types={"$prefix": ("delta_soc", "max_dsoc", "init_soc")},
-           doc="batt_cap_fn._get_init_cap: the closed-form prefix (delta_soc, max_dsoc, init_soc)", group="Fit"),
+           doc="batt_cap_fn._get_init_cap: the closed-form prefix (init_soc, max_dsoc, delta_soc: the order in which the rest reads them)", group="Fit"),
     Target("fit_get_init_cap", BATT, None, "_get_init_cap", path=FIT_PATH, params=FIT_OUTER + FIT_OWN,
            ret="K", kind="except", fuel=True, err_type="Sessions.Err",
            doc="batt_cap_fn._get_init_cap", group="Fit"),
@@ -1678,13 +1814,28 @@ TARGETS += [
            doc="EventQueue.get_current_events: the loop test over (len(_queue), _queue[0][0], timestep)",
            group="Queue"),
 ]
+TARGETS += [
+    # ---- group Tariff (C17): which schedules `_get_tariff_schedule` considers valid for a date
+    Target("tariff_valid_schedules", "acnportal/signals/tariffs/tou_tariff.py", None, "_get_tariff_schedule",
+           path=("TimeOfUseTariff", "_get_tariff_schedule"),
+           params=[("$l", "l", "List (Tariff.Schedule K)"), ("$md", "md", "Nat × Nat"), ("$wd", "wd", "Nat"),
+                   ("date_time", "_", "-")],
+           colls={"self._schedule": {"list": "l", "attrs": {"start": "start", "end": "stop"},
+                                     "types": {"start": "Nat × Nat", "end": "Nat × Nat"},
+                                     "index": {"dow_mask[date_time.weekday()]": "mask.getD wd false"}}},
+           inputs={"(date_time.month, date_time.day)": "md"},
+           ret="List (Tariff.Schedule K)", kind="pure", select=_sel_prefix,
+           doc="TimeOfUseTariff._get_tariff_schedule: the list of schedules valid on (month, day) = `md`, "
+               "weekday `wd` (`dow_mask[wd]` read as `mask.getD wd false`)", group="Tariff"),
+]
 TR_CLASS = {"net_limit_test": _NpTr, "alg_limit_test": _NpTr, "alg_limit_test_linear": _NpTr}
 
 PATHS = {(t.rel, t.path): t for t in TARGETS if t.path is not None and t.select is None}
-GROUP_IMPORTS = {"Fit": ["AcnModel.Sessions"], "Analysis": ["AcnModel.Analysis"], "Queue": ["AcnModel.Event"]}
+GROUP_IMPORTS = {"Fit": ["AcnModel.Sessions"], "Analysis": ["AcnModel.Analysis"], "Queue": ["AcnModel.Event"],
+                 "Tariff": ["AcnModel.Tariff"]}
 
 
-GROUPS = ["Battery", "Evse", "Sim", "Sorted", "Fit", "Net", "Analysis", "Queue"]  # "SortTable" targets are emitted outside the K-section of Sorted
+GROUPS = ["Battery", "Evse", "Sim", "Sorted", "Fit", "Net", "Analysis", "Queue", "Tariff"]  # "SortTable" targets are emitted outside the K-section of Sorted
 
 
 def gen_code(group: str) -> str:
